@@ -207,6 +207,11 @@ FIXED = [
     {"mode": "name", "template": "x%Name()", "filter": "%Name() == 'a.txt' and undefined_name", "mutated": "evaluation (fails for one file only)", "expect": 4},
     {"mode": "directory", "template": "%Name()", "sort": "%Name()", "recursive": True, "mutated": "none"},
     {"mode": "name", "template": "%Name()", "sort": "%Name() if %Size()==1 else 5", "mutated": "mixed-type sort keys (F9, fixed)", "expect": 4},
+    # a bare name that several categories provide is rejected wherever it stands — also after the qualified spelling was used
+    {"mode": "name", "template": "%text.Title{%Base()}_%Title{%Base()}%Ext()", "mutated": "ambiguous after qualified", "expect": 3},
+    {"mode": "name", "template": "%Title{%Base()}%Ext()", "filter": "%text.Title{%Name()} != ''", "mutated": "ambiguous after qualified (other template)", "expect": 3},
+    {"mode": "name", "template": "%video.Duration()_%Duration()", "mutated": "ambiguous after qualified", "expect": 3},
+    {"mode": "name", "template": "%Name()", "sort": "%Width()", "filter": "%image.Width() is not None", "mutated": "ambiguous after qualified (other template)", "expect": 3},
     {"mode": "name", "template": "", "mutated": "empty"},
     {"mode": "name", "template": "%Name()", "filter": "", "mutated": "empty"},
 ]
